@@ -80,6 +80,18 @@ func loadRepo(repo string) (*Loaded, error) {
 			ld.pkgsByName["errors"] = p.Pkg
 		}
 	}
+	for _, p := range prog.AllPackages() {
+		switch p.Pkg.Path() {
+		case "github.com/jeroenrinzema/psql-wire":
+			ld.pkgsByName["wire"] = p.Pkg
+		case "github.com/jeroenrinzema/psql-wire/pkg/buffer":
+			ld.pkgsByName["buffer"] = p.Pkg
+		case "github.com/jeroenrinzema/psql-wire/codes":
+			ld.pkgsByName["codes"] = p.Pkg
+		case "io", "bytes", "fmt", "net", "context", "strings":
+			ld.pkgsByName[p.Pkg.Path()] = p.Pkg
+		}
+	}
 	seen := map[*ssa.Function]bool{}
 	var add func(f *ssa.Function)
 	add = func(f *ssa.Function) {
